@@ -541,7 +541,7 @@ func (c *Check) handFuncs(pkgs ...string) []*Func {
 	}
 	var out []*Func
 	for _, f := range c.P.Funcs {
-		if f.isHandWritten() && f.Body != nil && want[f.pkgName()] && !c.P.inlineTarget(f) {
+		if f.isHandWritten() && f.Body != nil && want[f.pkgName()] && !c.P.inlineTarget(f) && !c.P.localBlock(f) {
 			out = append(out, f)
 		}
 	}
